@@ -141,6 +141,24 @@ def optimize (sorter : List Choice → List Choice) (t : Table) (p : Str) (rs : 
 def eligible (t : Table) (letter : Str) : Option (List (Str × Int)) :=
   (mapGet (chooserMap id t) letter).map fun ch => ch.data.map fun c => (c.item, c.weight)
 
+/-- the choice lists behind the chooser map (letter ↦ `codonChoices`, in program order) -/
+def choiceMap (t : Table) : List (Str × List Choice) :=
+  t.aminoAcids.filterMap fun a => if (choices a).length > 0 then some (a.letter, choices a) else none
+
+/-- position by position, the codon is an item (of positive weight) of the choices stored under the residue -/
+def memberLoop (M : List (Str × List Choice)) : Str → List Str → Bool
+  | [], [] => true
+  | aa :: p, c :: cs =>
+    (match mapGet M [aa] with
+     | some l => l.any fun ch => ch.item == c && decide (ch.weight > 0)
+     | none => false) && memberLoop M p cs
+  | _, _ => false
+
+/-- the membership test of the correspondence check: is `dna` a possible output of `Optimize(p, t)`?
+(Props/C07 `optimize_possible_iff`: exactly when some in-range draws make the model return it.) -/
+def member (t : Table) (p dna : Str) : Bool :=
+  dna.length == 3 * p.length && memberLoop (choiceMap t) p (chunks3 dna)
+
 /-- weights are non-negative (true of the default tables and of everything `OptimizeTable`,
 `AddCodonTable`, `CompromiseCodonTable` produce) -/
 def NonNeg (t : Table) : Prop := ∀ a ∈ t.aminoAcids, ∀ c ∈ a.codons, 0 ≤ c.weight
